@@ -95,7 +95,9 @@ def run(chk):
                         "SlabSpec.planar_distance vs the implementation within 1 mm + 1e-9 * total length")
     chk.assumptions = ["accuracy of the Newton closest-point iteration on the trench is not a theorem; the planar construction uses the "
                        "exact orthogonal foot, distances are compared with an absolute tolerance of 1 m + 1e-6 * scale",
-                       "curved trenches and spherical worlds: covered by C07/C08/C13 oracles, not by this closed form"]
+                       "curved trenches: covered by the model correspondence of C02/C10 and the oracles of C07/C08/C13, not by this closed form",
+                       "spherical straight trenches (meridian, equator, oblique; all depth methods): model vs implementation bit for bit; "
+                       "the planar closed form is not evaluated there"]
     chk.prove()
     common.build_repo()
     rng = random.Random(chk.seed * 86028157 + 6)
@@ -104,6 +106,7 @@ def run(chk):
     cs = CaseSet("c06")
     plan = []
     model_dist = []
+    impl_nontrivial = []
     for wi in range(50 if quick else 600):
         kind = rng.choice(["subducting plate", "fault"])
         f = g.line_feature("line", kind, False, straight=True, uniform_sections=True, allow_mass_conserving=False)
@@ -165,9 +168,49 @@ def run(chk):
                              {"kind": "dist", "slot": slot, "world": wj, "pos": [x, y, TOP - d], "depth": d})
                 model_dist.append(i_m)
             plan.append((i_d, i_t, f, segs, t, u, v, d, m0, mx, total, kind))
+    # spherical worlds (all three depth methods): SlabModel.distance_point_from_curved_planes_sph and SlabFeature vs the
+    # implementation, bit for bit; straight trenches along meridians, parallels and oblique
+    from worlds import line_world
+    from qgen import line_query
+    for wi in range(20 if quick else 250):
+        wj, sph, f = line_world(rng, spherical=True, straight=True, uniform_sections=True, allow_mass_conserving=False, extra_area=0.0)
+        for k in ("temperature models", "grains models", "velocity models", "sections"):
+            f.pop(k, None)
+        for sg in f["segments"]:
+            for k in ("temperature models", "composition models", "grains models", "velocity models"):
+                sg.pop(k, None)
+        f["composition models"] = [{"model": "uniform", "compositions": [0]}]
+        u_ = rng.random()
+        c0 = f["coordinates"][0]
+        if u_ < 0.3:      # along a meridian
+            f["coordinates"] = [c0, [c0[0], round(max(-80.0, min(80.0, c0[1] + rng.choice([-1, 1]) * rng.uniform(3, 12))), 1)]]
+            f["dip point"] = [round(c0[0] + rng.choice([-20.0, 20.0]), 1), c0[1]]
+        elif u_ < 0.5:    # along the equator
+            f["coordinates"] = [[c0[0], 0.0], [round(c0[0] + rng.choice([-1, 1]) * rng.uniform(3, 12), 1), 0.0]]
+            f["dip point"] = [c0[0], rng.choice([-20.0, 20.0])]
+        wj["features"] = [f]
+        slot = cs.add_world(wj)
+        lf_ml = cs.worlds[slot][2].line_terms.get("line") if cs.model_ok[slot] else None
+        for qi in range(25):
+            q, d = line_query(rng, wj, True, f, spread=rng.choice([0.3, 0.6, 1.2]))
+            if d < 0:
+                continue
+            cs.p3(slot, q, d, [[4, 0, 0], [2, 0, 0]])
+            if lf_ml is not None:
+                i_m = cs.raw("dist %d %s %s %s %s line" % (slot, fhex(q[0]), fhex(q[1]), fhex(q[2]), fhex(d)),
+                             "let () = (let lf = %s in let pos = ((%s, %s), %s) in let ((r, _), _) = cartesian_to_spherical n pos in "
+                             "let pd = distance_point_from_curved_planes_sph n lf.lf_dm (closest_point_spherical n) pos lf.lf_dip lf.lf_coords (lf_geom lf) ((r +. %s) -. lf.lf_min) (bezier_build n lf.lf_coords) in "
+                             "out_vec [pd.pd_distance; pd.pd_along])" % (lf_ml, common.ml(q[0]), common.ml(q[1]), common.ml(q[2]), common.ml(d)),
+                             {"kind": "dist", "slot": slot, "world": wj, "pos": list(q), "depth": d})
+                model_dist.append(i_m)
+                if impl_nontrivial is not None:
+                    impl_nontrivial.append(i_m)
     impl, model = cs.run()
     chk.evaluations = len(impl)
     oracle_mismatch = 0
+    for i_m in impl_nontrivial:
+        if "inf" not in impl[i_m]:
+            chk.nontriv(("sph", i_m))
     spec_lines = set(pl[0] for pl in plan)
     bad = chk.correspond(impl, model, cs, max_ulp=0, skip=spec_lines)
     viol = []
